@@ -4,6 +4,21 @@ import json, os
 HERE = os.path.dirname(os.path.dirname(os.path.abspath(__file__)))
 
 CHECKS = {
+ "C02": dict(
+    technique="custom static rules over the clang-resolved program: role agreement of the _scalar_index slots and result-constructor arguments (swapped in transposing context on every exit), perspective coherence, polynomial equality of allocated array extents, decision-table extraction of Container::clone / Container::assign against the documented CloneMode table",
+    text="Decides for all matrices and chains of operations the structural part of 'dimensions and layout are carried over': every fill of a container's scalar slots in convert/transpose/permute/layout constructors receives the source quantity of the same role (rows<->columns swapped when transposing) on every exit, with all quantities of one fill in one perspective; arrays handed to result constructors were allocated with rows+1 resp. nnz x block extents; array pushes are paired with equal size pushes; Container::clone aliases/copies exactly as the CloneMode documentation says (incl. copy extents); same-type convert shares and cross-type convert copies.",
+    note="Trusted: clang front end, featx facts, the abstract interpreter in lib/lafem_rules.py, the role tables derived from the classes' own accessors. Not decided: value equality after chains, kind-correctness/coverage of the conversion loops and of the transpose counting sort, sortedness of produced column indices.",
+    design="§4 C02"),
+ "C20": dict(
+    technique="ownership typestate analysis (abstract interpretation over all CFG paths of every lifetime function of Container, SparseLayout and the derived classes) + protocol rules on MemoryPool",
+    text="Decides for every history of lifetime operations the per-function obligations whose conjunction is the reference-count discipline: pointer vectors are overwritten/cleared only when nothing is owned (release loops first, under !_foreign_memory where foreign memory is possible); release and increase loops range over the vector whose slots they pass; every pointer entering _elements/_indices is a fresh allocation, a counted copy, or foreign with the flag set; every object is left consistent with its flag at every exit; destructors release; array pushes are paired with same-extent size pushes; MemoryPool's release/increase/allocate/finalize follow the counter protocol and treat the nullptr of zero-length arrays consistently.",
+    note="Trusted: clang front end, featx facts, the interpreter in lib/lafem_rules.py. Assumed: a moved-from std::vector is empty. Not decided: writes through shared index arrays (design clause 5), heap bounds of index-driven accesses, self-move/self-convert aliasing, CUDA/MKL allocation paths.",
+    design="§4 C20"),
+ "C07": dict(
+    technique="CFG path rules and abstract interpretation of Status values, decision-table extraction of the stopping predicates compared with an oracle transcribed from the documentation (anchor-checked), role rules for setters/getters/config keys, units-of-measure inference on the recurrences",
+    text="Decides for all systems, tolerances, start vectors and call histories the structural part of 'status is reported truthfully': in all 16 solvers no returned status is invented (each terminal status is control-dependent on its cause; defect-update results are never overwritten; every preconditioner result is tested; each loop trip updates the defect; _set_initial_defect precedes the loop on every path), apply() ignores and correct() honours the start vector, the rhs is never modified, is_converged/is_diverged/_analyse_defect/_set_initial_defect equal the documented criteria on every CFG path and are monotone in the defect, _num_iter is counted once per update, status_success maps exactly {success,max_iter,stagnated} to true, setters/getters/config keys reach the like-named fields, and 12 recurrences are dimensionally consistent.",
+    note="Trusted: clang front end, featx facts, oracle tables transcribed from 29 doc anchors in iterative.hpp/base.hpp (a changed anchor text gives exit 2), lib/c07_dim.py. Assumed: virtual calls resolve to the statically named callee; comparisons over a total order. Not decided: numerical attainment of the tolerance, convergence, equality of repeated solves, sign/dimensionless-factor errors, E6 for GMRES/FGMRES/IDRS/BiCGStabL.",
+    design="§4 C07"),
  "C03": dict(
     technique="custom static rules over the clang-resolved program: slot/accessor role agreement at Arch call sites, index-kind checking of matrix kernels and merge loops (equalities only from the functions' own XASSERTs), CFG control-dependence rule for the no-silent-drop clause",
     text="Decides for all operands, scalars and patterns: every Arch::{ScaleRows,ScaleCols,Lumping,Diagonal,RowNorm,Axpy,Scale,...} call site passes the like-named accessor of the right object, the vector operand is guarded against rows resp. columns according to the index kind the kernel uses, wrappers forward to the right generic kernel, the row kernels loop rows x [row_ptr[i],row_ptr[i+1]) with kind-correct subscripts and the documented per-entry term, every subscript in the five sorted-merge products is of the kind its array expects, and in the merge loops an entry of the product outside the output pattern can only be skipped on the true edge of allow_incomplete - every other way out reaches the abort (required-pattern violations are never silent).",
